@@ -184,6 +184,9 @@ func (es *Events) AddEvents(more *Events) {
 	for _, x := range more.Emitted {
 		es.AddEmitted(x)
 	}
+	if more.Traces == nil {
+		return
+	}
 	for _, x := range more.Traces.Messages {
 		es.AddTrace(x)
 	}
@@ -272,6 +275,15 @@ func (s *Spec) Step(ctx context.Context, st *State, pending interface{}, c *Cont
 
 	if haveAction {
 		e, err = n.Action.Exec(ctx, bs, props)
+		// An Action that is not a FuncAction (which takes care of
+		// this) might return nothing at all, or an Execution made
+		// by hand.
+		if e == nil && err == nil {
+			e = NewExecution(nil)
+		}
+		if e != nil && e.Events == nil {
+			e.Events = newEvents()
+		}
 		if e != nil {
 			stride.AddEvents(e.Events)
 			if e.Bs == nil {
@@ -502,7 +514,11 @@ func (b *Branch) try(ctx context.Context, bs Bindings, against interface{}, prop
 
 			exe, err := b.Guard.Exec(ctx, candidate, props)
 
-			if exe != nil {
+			// (See Step about Actions that are not FuncActions.)
+			if exe == nil && err == nil {
+				exe = NewExecution(nil)
+			}
+			if exe != nil && exe.Events != nil && exe.Events.Traces != nil {
 				ts.Add(exe.Events.Traces.Messages...)
 			}
 
